@@ -114,11 +114,27 @@ impl ProgCheck {
         let failf = |sig: String, what: String| fail(sig, what, tape, profile, src);
         match self.kind {
             Kind::Reclaim => {
-                let modes = [Mode::FP, Mode::_P, Mode::F_, Mode::__];
-                let res = run_impl(src, &modes, false);
+                // baselines (reclamation off) run first: their measured work bounds the other runs
+                let modes = [Mode::_P, Mode::FP, Mode::__, Mode::F_];
+                let res = run_impl_budget(src, &modes, false, WORK_BUDGET, &[None, Some(0), None, Some(2)]);
                 // crashes: only those that reclamation introduces belong to this property
-                for (on, off) in [(0usize, 1usize), (2, 3)] {
+                for (on, off) in [(1usize, 0usize), (3, 2)] {
                     match (&res[on], &res[off]) {
+                        // the run without reclamation is the baseline: if it does not stop either, the
+                        // program is outside the compared domain (U8)
+                        (_, ModeResult::Crash(b)) if is_work_budget(b) => {
+                            return Outcome::Discard("U8 work budget exceeded without reclamation");
+                        }
+                        (ModeResult::Crash(c), ModeResult::Ok(_)) if is_work_budget(c) => {
+                            return failf(
+                                "runs-on-with-reclamation".into(),
+                                format!(
+                                    "mode {} (reclamation on) did more than twice the work of mode {} (reclamation off), which ended: it has stopped following the program",
+                                    modes[on].name(),
+                                    modes[off].name()
+                                ),
+                            );
+                        }
                         (ModeResult::Crash(c), ModeResult::Ok(_)) => {
                             if is_arena_exhaustion(c) || c == "timeout" {
                                 ctx.inconclusive += 1;
@@ -148,8 +164,8 @@ impl ProgCheck {
                 if o.iter().any(|x| resource(x)) {
                     return Outcome::Discard("U8 implementation stack budget");
                 }
-                let c = &o[0].counters;
-                let prints_heap = o[0].output.iter().any(|v| matches!(v, NVal::Str(_) | NVal::Arr(_)));
+                let c = &o[1].counters;
+                let prints_heap = o[1].output.iter().any(|v| matches!(v, NVal::Str(_) | NVal::Arr(_)));
                 if c.frame_resets >= 1 && c.pool_returns >= 1 && c.promotions >= 1 && prints_heap {
                     ctx.nontrivial(source_hash(src));
                     ctx.sample("reclamation exercised", J::String(src.clone()));
@@ -163,7 +179,7 @@ impl ProgCheck {
                 if c.promotions > 0 {
                     ctx.class("run promoted strings");
                 }
-                for (on, off) in [(0usize, 1usize), (2, 3)] {
+                for (on, off) in [(1usize, 0usize), (3, 2)] {
                     if let Err((sig, what)) = diff_obs(o[on], modes[on].name(), o[off], modes[off].name()) {
                         // blame: which side agrees with the reference?
                         let blame = match compare_with_reference(&r, o[off], "off") {
@@ -177,7 +193,21 @@ impl ProgCheck {
             }
             Kind::Prune => {
                 let modes = [Mode::F_, Mode::FP];
-                let res = run_impl(src, &modes, true);
+                let res = run_impl_budget(src, &modes, true, WORK_BUDGET, &[None, Some(0)]);
+                match (&res[0], &res[1]) {
+                    // a program that does not stop when every statement is executed is outside the
+                    // compared domain ("runs ending in resource exhaustion are not compared")
+                    (ModeResult::Crash(a), _) if is_work_budget(a) => {
+                        return Outcome::Discard("U8 work budget exceeded without the plan");
+                    }
+                    (ModeResult::Ok(_), ModeResult::Crash(c)) if is_work_budget(c) => {
+                        return failf(
+                            "runs-on-with-plan".into(),
+                            "executing every statement the program ends; with the optimisation plan it did more than twice that work and was still running".to_string(),
+                        );
+                    }
+                    _ => {}
+                }
                 for (i, m) in res.iter().enumerate() {
                     if let ModeResult::Crash(c) = m {
                         if is_arena_exhaustion(c) || c == "timeout" {
@@ -230,12 +260,27 @@ impl ProgCheck {
             }
             Kind::Scope | Kind::Arrays => {
                 let modes = [Mode::FP, Mode::F_];
-                let res = run_impl(src, &modes, false);
+                // R's step count bounds the work only when R followed the program to its end
+                let budget = if r.ambiguous.is_none() { budget_for(r.stats.steps) } else { WORK_BUDGET };
+                let res = run_impl_budget(src, &modes, false, budget, &[]);
                 for m in &res {
                     if let ModeResult::Crash(c) = m {
                         if is_arena_exhaustion(c) || c == "timeout" {
                             ctx.inconclusive += 1;
                             return Outcome::Discard("U8 arena exhaustion / watchdog");
+                        }
+                        if is_work_budget(c) && r.ambiguous.is_some() {
+                            return Outcome::Discard("U8 work budget (reference stopped at an unspecified zone)");
+                        }
+                        if is_work_budget(c) {
+                            return failf(
+                                format!("runs-on|reference ends {}", ending_name(&r.ending)),
+                                format!(
+                                    "the reference interpreter ends ({}) after {} steps; the implementation was still running after {budget} executed statements + loop iterations",
+                                    ending_name(&r.ending),
+                                    r.stats.steps
+                                ),
+                            );
                         }
                         return failf(format!("crash|{c}"), format!("the interpreter crashed ({c})"));
                     }
@@ -248,6 +293,9 @@ impl ProgCheck {
                 if self.kind == Kind::Scope {
                     if s.shadowed_reference > 0 {
                         ctx.class("referenced a name bound in >= 2 live scopes");
+                    }
+                    if s.shadowed_path_mutation > 0 {
+                        ctx.class("array changed through a path while its name was bound in >= 2 live scopes");
                     }
                     if s.capture_reads + s.capture_writes > 0 {
                         ctx.class("captured variable accessed at run time");
@@ -305,7 +353,13 @@ impl Check for ProgCheck {
                 with/without plan; debug-assertion build, so reset frames and recycled slots are poisoned. Oracle: printed \
                 values and ending with reclamation on equal those with reclamation off; a crash that only occurs with \
                 reclamation on is a violation. Non-trivial (measured by hook counters in the FP run): >= 1 frame reset AND \
-                >= 1 pool slot returned AND >= 1 promotion, and a string or array value was printed. Distinct by source."
+                >= 1 pool slot returned AND >= 1 promotion, and a string or array value was printed. Distinct by source. \
+                A run with reclamation on may do at most twice the work (executed statements + loop iterations, hook \
+                counter) of the run without; more means it has stopped following the program. Second stage (host values): \
+                process command builders whose arg/env/cwd/stdin calls are spread over loop iterations, at top level or on \
+                parameters inside a function, then run against a helper child that reports the argv, environment, cwd and \
+                stdin it received; oracle = C15's contract model (a builder corrupted by a frame reset shows up as a wrong \
+                report or a crash)."
                 .into(),
             Kind::Prune => "Programs from the `prune` profile of nsgen (statements after return/comot/next, dead stores and \
                 unused declarations with pure / may-trap / impure right-hand sides, unused functions, functions called only \
@@ -342,7 +396,7 @@ impl Check for ProgCheck {
             ],
             Kind::Prune => vec![
                 "runs ending in resource exhaustion are not compared (U8)".into(),
-                "non-termination introduced or removed by pruning is not compared".into(),
+                "programs that do not stop within the work budget when every statement is executed are not compared; a program that stops then but runs on with the plan is a violation (deterministic work count, not wall-clock)".into(),
             ],
             _ => vec!["reference interpreter R restates docs/*.md; unspecified zones are never asserted".into()],
         }
@@ -359,6 +413,23 @@ impl Check for ProgCheck {
         crate::prop::run(ctx, profile, cases, tape_strategy(700), |ctx, tape| {
             self.check_case(ctx, tape, profile)
         });
+        if matches!(self.kind, Kind::Scope | Kind::Arrays) {
+            // captured (nested) arrays changed through paths while a namesake is live in the caller
+            let n = match self.kind {
+                Kind::Scope => ctx.tier.pick(2_000, 30_000),
+                _ => ctx.tier.pick(3_000, 40_000),
+            };
+            crate::prop::run(ctx, "scope-arrays", n, tape_strategy(700), |ctx, tape| {
+                self.check_case(ctx, tape, "scope-arrays")
+            });
+        }
+        if self.kind == Kind::Reclaim {
+            // host values (process command builders) are frame-allocated too: builder calls on a
+            // parameter inside a loop, then a run that reports the argv/env/cwd/stdin it received
+            // (C15's contract model is the oracle; the helper child is the observer)
+            let n = ctx.tier.pick(250, 4_000);
+            crate::c15::run_budgeted(ctx, "host-values", n, crate::c15::reclaim_case_strategy(), 1, crate::c15::check_case);
+        }
         if matches!(self.kind, Kind::Reclaim | Kind::Prune) {
             tape_triage(ctx, |ctx, tape, profile| self.check_case(ctx, tape, profile));
         }
@@ -367,6 +438,11 @@ impl Check for ProgCheck {
     fn replay(&self, ctx: &mut ShardCtx, _stage: &str, input: &J) -> Outcome {
         if let Some(src) = input.get("raw_source").and_then(J::as_str) {
             return self.check_source(ctx, src);
+        }
+        if self.kind == Kind::Reclaim
+            && let Some(case) = input.get("case").and_then(crate::c15::Case::from_json)
+        {
+            return crate::c15::check_case(ctx, &case);
         }
         match tape_from_input(input) {
             Some((tape, profile)) => self.check_case(ctx, &tape, &profile),
